@@ -178,9 +178,10 @@ def write_evidence(chk, tier, seed, m, wall, problems, nshards):
     ev = dict(property_id=chk["id"], tier=tier, seed=int(seed), level=chk["level"], coverage=cov,
               assumptions=m["assumptions"], wall_s=round(wall, 2), violations=len(m["violations"]))
     p = os.path.join(EVID, chk["id"] + ".json")
-    with open(p + ".tmp", "w") as f:
+    tmpf = "%s.tmp.%d" % (p, os.getpid())
+    with open(tmpf, "w") as f:
         json.dump(ev, f, indent=1)
-    os.replace(p + ".tmp", p)
+    os.replace(tmpf, p)
 
 
 def run_check(pid, tier, replay=None):
